@@ -8,7 +8,7 @@ META = {
     "title": "Results are unaffected by concurrent first use and by interleaving of instances",
     "design_ref": "6/C18",
     "technique": "Coq proof over ALL schedules of a micro-step model (non-atomic lazy cells, instance table, threads) + source scan of every global/shared-state construct compared with the modelled inventory + stress runs: cold processes with 2..64 barrier-released threads whose first calls go into every algorithm, and random single-thread interleavings of instances, both compared with one-at-a-time results",
-    "level_text": "PARTIAL. Machine-checked (Props/C18.v, 8 theorems, all closed, no bound on threads or steps): lazy dispatch cells accessed by separate read / compute / store micro-steps (weaker than std::sync::Once) only ever hold None or init(c) and every caller uses init(c) under every schedule (C18_once_cell_any_schedule); each thread's outputs and instance state equal the sequential one-at-a-time run of the operations it executed (C18_concurrent_equals_sequential, C18_concurrent_complete); instances not owned are never written (C18_no_foreign_writes); single-thread interleavings give each instance its own sequential results (C18_interleaving_independent); a thread given 4 micro-steps per operation finishes whatever the others do, so under every fair schedule all outputs are the sequential ones (C18_progress, C18_fair_schedule_sequential); a concrete 3-thread schedule with a racy double initialisation (C18_example_three_threads). OBSERVED, not proved: memory-model effects (torn pointer reads, the real Once), and that the code has no shared mutable state beyond the modelled cells. C18_no_foreign_writes and C18_interleaving_independent hold by construction of the model (an operation is given only its own table entry). Instantiated with a real algorithm (Proofs/FollowupsGroestl.v): C18_concurrent_first_use_groestl256/512 (+ _fair, _no_sse2 variants, C18_concurrent_first_use_hasher256): for every schedule of threads whose first Groestl calls race on the lazily initialised implementation choice, each thread's digest is Spec.Groestl.groestl256/512 of its own message (composed with C07); assumes is_x86_feature_detected! is consistent within a process.",
+    "level_text": "PARTIAL. Machine-checked (Props/C18.v, 8 theorems, all closed, no bound on threads or steps): lazy dispatch cells accessed by separate read / compute / store micro-steps (weaker than std::sync::Once) only ever hold None or init(c) and every caller uses init(c) under every schedule (C18_once_cell_any_schedule); each thread's outputs and instance state equal the sequential one-at-a-time run of the operations it executed (C18_concurrent_equals_sequential, C18_concurrent_complete); instances not owned are never written (C18_no_foreign_writes); single-thread interleavings give each instance its own sequential results (C18_interleaving_independent); a thread given 4 micro-steps per operation finishes whatever the others do, so under every fair schedule all outputs are the sequential ones (C18_progress, C18_fair_schedule_sequential); a concrete 3-thread schedule with a racy double initialisation (C18_example_three_threads). OBSERVED, not proved: memory-model effects (torn pointer reads, the real Once), and that the code has no shared mutable state beyond the modelled cells. C18_no_foreign_writes and C18_interleaving_independent hold by construction of the model (an operation is given only its own table entry). Instantiated with a real algorithm (Proofs/FollowupsGroestl.v): C18_groestl256_concurrent_first_use / C18_groestl512_concurrent_first_use (+ C18_groestl256_concurrent_first_use_fair, C18_groestl_no_sse2_all_calls_panic, C18_groestl256_hasher_concurrent_first_use): for every schedule of threads whose first Groestl calls race on the lazily initialised implementation choice, each thread's digest is Spec.Groestl.groestl256/512 of its own message (composed with C07); assumes is_x86_feature_detected! is consistent within a process.",
     "level_note": "Proved: the scheduling logic, for every schedule. The model's premises are tied to the code by (a) a scan, regenerated on every run, of <repo>/**/src/**/*.rs for static / static mut / thread_local / UnsafeCell / Cell< / RefCell / atomics / lazy_static! / Once* / Lazy* / Mutex / RwLock outside #[cfg(test)] and #[cfg(cryptocorrosion_verif)] items, compared with the modelled inventory (the lazy_static IMPL cell of the dispatch! macro in hashes/groestl/src/compressor.rs, instantiated by six entry points; std's feature-detection cache behind is_x86_feature_detected! has the same read/compute/store shape and lives outside the repository) — any other mutable global is reported with file:line; (b) stress runs whose counts (processes, thread counts, start modes, first algorithms, interleaving rounds) are in coverage.configurations. Only observed: absence of wrong results in those runs.",
     "rule": "evaluation = one (thread, algorithm) result of a cold multi-threaded process compared with the sequential reference computed in a separate single-threaded process, or one interleaving round (2..6 instances, random schedule) compared with one-at-a-time; distinct = distinct (thread count, start mode, first algorithm) configurations + distinct (instance kinds, schedule) rounds; all are non-trivial (every input is a non-empty random message)",
     "assumptions": ["x86-64 Linux host; schedules actually exercised are chosen by the OS scheduler", "16 hardware threads: 32/64-thread processes are oversubscribed"],
